@@ -294,6 +294,8 @@ def main():
     drv.build()
     rep = common.Report("C06", "translation_validation")
     items = build_items(rep.tier, rep.seed)
+    # a random program whose guarded-merge terms explode is reported as undecided after this long, not waited for
+    os.environ.setdefault("VERIF_ITEM_TIMEOUT", "300" if rep.tier == "quick" else "1800")
     results = common.pmap(check_one, items, chunksize=1)
     counts = {}
     for it, r in zip(items, results):
